@@ -51,7 +51,7 @@ def scenarios(tier):
                               ("AT", "ExcludeRegion", "on"), ("AT", "excluderegion", "on")],
                  max_states=150000 if q else 3000000,
                  note="patterns and parameters are matched case-sensitively, as configured"),
-        Scenario("c14-default", World, base, moves + dflt, max_states=150000 if q else 3000000),
+        Scenario("c14-default", World, base, moves + dflt + [("SET", "save", None)], max_states=150000 if q else 3000000),
         Scenario("c14-custom", World, dict(base, at=CUSTOM, regions=["R"]), moves[:6] + cust,
                  max_states=150000 if q else 3000000),
         Scenario("c14-empty-patterns", World, dict(base, at=empty, regions=["R"]),
